@@ -281,8 +281,8 @@ kani("models::lookup_contiguous_p4", ["C05", "C10", "C20"], kind="bounded", boun
      fns=[M + "categorical/lookup_contiguous.rs::ContiguousLookupDecoderModel::{from_nonzero_fixed_point_probabilities,quantile_function,as_contiguous_categorical,symbol_table}", M + "categorical/lookup_contiguous.rs::From<&ContiguousCategoricalEntropyModel>"])
 kani("models::lookup_contiguous_rejects_p4", ["C19"], kind="bounded", bound="<= 3 entries, P=4", timeout=1200, tier="thorough",
      fns=[M + "categorical/lookup_contiguous.rs::ContiguousLookupDecoderModel::from_nonzero_fixed_point_probabilities"])
-kani("models::non_contiguous_p4", ["C03", "C05", "C19"], kind="bounded", bound="<= 3 entries, <= 4 symbols, P=4", timeout=1200, tier="thorough",
-     fns=[M + "categorical/non_contiguous.rs::NonContiguousCategoricalDecoderModel::{from_symbols_and_nonzero_fixed_point_probabilities,quantile_function}"])
+# models::non_contiguous_p4 (symbolic table of <= 3 entries with <= 4 symbolic symbols) ends with an undetermined CBMC result after ~5 min: not registered;
+# the non-contiguous decoder is covered by non_contiguous_full_precision_p8, non_contiguous_fast_counts and, for acceptance, by the shared accumulate_nonzero_probabilities harnesses.
 kani("models::non_contiguous_full_precision_p8", ["C03", "C10", "C20"], kind="bounded", bound="one 3-entry table at P == Probability::BITS (explicit and inferred last entry), every quantile",
      fns=[M + "categorical/non_contiguous.rs::NonContiguousCategoricalDecoderModel::{from_symbols_and_nonzero_fixed_point_probabilities,quantile_function}"],
      text="at full precision (closing cdf entry wraps to 0) every quantile, also of the last symbol, is answered in bounds with the right entry")
